@@ -225,10 +225,8 @@ class PeekAll(Terminal):
 
     def parse(self, state: ParserState, pairs: list[Pair]) -> bool:  # noqa: D102
         position = state.pos
-        stack_size = len(state.user_stack)
-        children: list[Pair] = []
 
-        for i, literal in enumerate(reversed(state.user_stack)):
+        for literal in reversed(state.user_stack):
             # XXX: can `literal` be empty?
             if not state.input.startswith(literal, position):
                 state.fail(literal)
@@ -236,11 +234,7 @@ class PeekAll(Terminal):
 
             position += len(literal)
 
-            if i < stack_size:
-                state.parse_trivia(children)
-
         state.pos = position
-        pairs.extend(children)
         return True
 
     def generate(self, gen: Builder, matched_var: str, pairs_var: str) -> None:
@@ -248,21 +242,15 @@ class PeekAll(Terminal):
         gen.writeln("# <PeekAll>")
 
         start_var = gen.new_temp("start")
-        tmp_pairs = gen.new_temp("pairs")
 
         gen.writeln(f"{start_var} = state.pos")
-        gen.writeln(f"{tmp_pairs}: list[Pair] = []")
         gen.writeln(f"{matched_var} = True")
 
-        gen.writeln("for i, literal in enumerate(reversed(state.user_stack)):")
+        gen.writeln("for literal in reversed(state.user_stack):")
         with gen.block():
             gen.writeln("if state.input.startswith(literal, state.pos):")
             with gen.block():
                 gen.writeln("state.pos += len(literal)")
-                gen.writeln(f"{matched_var} = True")
-                gen.writeln("if i < len(state.user_stack):")
-                with gen.block():
-                    gen.writeln(f"parse_trivia(state, {tmp_pairs})")
             gen.writeln("else:")
             with gen.block():
                 gen.writeln(f"state.pos = {start_var}")
@@ -332,7 +320,6 @@ class PopAll(Terminal):
 
     def parse(self, state: ParserState, pairs: list[Pair]) -> bool:  # noqa: D102
         position = state.pos
-        children: list[Pair] = []
         state.checkpoint()
 
         while not state.user_stack.empty():
@@ -344,12 +331,8 @@ class PopAll(Terminal):
 
             position += len(literal)
 
-            # TODO: don't skip trivia after the last pop
-            state.parse_trivia(children)
-
         state.ok()
         state.pos = position
-        pairs.extend(children)
         return True
 
     def generate(self, gen: Builder, matched_var: str, pairs_var: str) -> None:
